@@ -1,5 +1,6 @@
 /- Driver for the streams `len`, `schc`, `parse`, `unparse`, `compute`. -/
 import Schc.Drv.Tok
+import Schc.Py.Unparse
 
 namespace Schc.Drv
 open Schc
@@ -8,6 +9,36 @@ def ruleIndex (rules : List Rule) (r : Rule) : String :=
   match rules.findIdx? (· == r) with
   | some i => toString i
   | none => "?"
+
+/-- `IPv6+UDP+CoAPs`: explicit stack; suffix `s` = CoAP options in semantic mode, `p` = predict_next -/
+def stackOfSpec (spec : String) : Option (List ParserInst) :=
+  (spec.splitOn "+").mapM fun tok =>
+    let cs := tok.toList
+    let flags := (cs.reverse.takeWhile (fun c => c == 'p' || c == 's')).reverse
+    let name := String.ofList (cs.take (cs.length - flags.length))
+    if ["IPv4", "IPv6", "UDP", "CoAP", "SCTP"].contains name then
+      some ⟨name ++ "Parser", flags.contains 'p', if flags.contains 's' then .semantic else .syntactic⟩
+    else none
+
+/-- the rule a recipe denotes for a parsed packet (mirrors `harness/schcstream.py: recipe_rule`) -/
+def recipeRule (fields : List Field) (recipe : String) (rid : ABuf) : Rule :=
+  let codes := recipe.toList
+  let one (k : Nat) (f : Field) : RuleField :=
+    let L := f.value.length
+    let code := codes.getD (k % codes.length) 'v'
+    let code := if code == 'c' && (Gen.computeFunctions.find? (·.1 == f.id)).isNone then 'v' else code
+    if code == 'n' then ⟨f.id, L, f.position, .bi, .buf f.value, .equal, .notSent⟩
+    else if code == 'l' then ⟨f.id, L, f.position, .bi, .buf (f.value.slice 0 (L / 2)), .msb, .lsb⟩
+    else if code == 'm' then ⟨f.id, L, f.position, .bi, .map [(f.value, ⟨[false], .left⟩)], .matchMapping, .mappingSent⟩
+    else if code == 'c' then ⟨f.id, L, f.position, .bi, .buf ⟨[], .left⟩, .ignore, .compute⟩
+    else ⟨f.id, if strContains f.id "Option" then 0 else L, f.position, .bi, .buf ⟨[], .left⟩, .ignore, .valueSent⟩
+  ⟨rid, .compression, (List.range fields.length).zipWith one fields⟩
+
+def pDirOpt : P (Option Dir) := do
+  match ← tok with
+  | "-" => pure none
+  | "U" => pure (some .up) | "D" => pure (some .dw) | "B" => pure (some .bi)
+  | _ => failure
 
 def lenOp (toks : List String) : Option String :=
   match toks with
@@ -72,6 +103,17 @@ def schcOp (toks : List String) : Option String :=
     let (pid, rs, pk, d, st) ← runP (do let pid ← pId; let rs ← pRules; let pk ← pABuf; let d ← pDir; let st ← pStrategy; pEnd; pure (pid, rs, pk, d, st)) rest
     pure (showPy (fun (c, d) => s!"{showABuf c} {showABuf d}") (do
       let ps ← factory pid; let c ← managerCompress ps rs pk d st; let dd ← managerDecompress rs c (some d); pure (c, dd)))
+  | "uroundtrip" :: rest => do
+    -- explicit (possibly semantic) stack; rule by recipe from the parsed fields; decompress WITH the parser as unparser
+    let (spec, recipe, rid, pk, d) ← runP (do let spec ← tok; let recipe ← tok; let rid ← pABuf; let pk ← pABuf; let d ← pDirOpt; pEnd; pure (spec, recipe, rid, pk, d)) rest
+    let ps ← stackOfSpec spec
+    pure (showPy (fun (c, dd) => s!"{showABuf c} {showABuf dd}") (do
+      let p0 ← packetParse (fuelFor pk) ps pk
+      let p := match d with | some x => { p0 with dir := x } | none => p0
+      let r := recipeRule p.fields recipe rid
+      let c ← compressD p r d
+      let dd ← decompressU c r (some ps) d
+      pure (c, dd)))
   | "fcompress" :: rest => do
     let (cs, pk, ifc) ← runP (do let n ← pNat; let cs ← pRep n pContext; let pk ← pABuf; let ifc ← pId; pEnd; pure (cs, pk, ifc)) rest
     pure (showPy showABuf (frontCompress cs pk ifc))
